@@ -338,10 +338,19 @@ pub enum CompileFail {
 pub struct SubCompiler {
     worker: Option<crate::proc::LineWorker>,
     shared_next: bool,
+    /// coverage-guided stage (fuzz/): requests are served inside this process, on a thread with a large stack, so that
+    /// the fuzzer's coverage counters see the compiler and the engine; time bounds are then libFuzzer's (-timeout) and a
+    /// stack overflow kills the fuzzing process (the saved input is judged again through the subprocess path)
+    pub inproc: bool,
+}
+
+fn on_big_stack<T: Send + 'static>(f: impl FnOnce() -> T + Send + 'static) -> Result<T, CompileFail> {
+    let h = std::thread::Builder::new().stack_size(512 * 1024 * 1024).spawn(f).map_err(|e| CompileFail::Infra(e.to_string()))?;
+    h.join().map_err(|_| CompileFail::Infra("in-process request panicked outside catch_unwind".into()))
 }
 impl SubCompiler {
     pub fn new() -> SubCompiler {
-        SubCompiler { worker: None, shared_next: false }
+        SubCompiler { worker: None, shared_next: false, inproc: std::env::var("BEFFV_INPROC").is_ok() }
     }
     fn ensure(&mut self) -> Result<(), CompileFail> {
         if self.worker.is_none() {
@@ -370,6 +379,15 @@ impl SubCompiler {
         r
     }
     pub fn compile_many(&mut self, p: &Project, preload: Option<&[String]>, repeat: u64, timeout_s: u64) -> Result<Vec<CompileOut>, CompileFail> {
+        if self.inproc {
+            let (p, preload, shared) = (p.clone(), preload.map(|x| x.to_vec()), self.shared_next);
+            return on_big_stack(move || {
+                if shared {
+                    return compile_shared(&p, preload.as_deref(), repeat);
+                }
+                (0..repeat).map(|_| compile_with(&p, preload.as_deref())).collect()
+            });
+        }
         self.ensure()?;
         let req = serde_json::json!({"project": p, "preload": preload, "repeat": repeat, "shared": self.shared_next});
         let r = self.worker.as_mut().unwrap().request(req, std::time::Duration::from_secs(timeout_s));
@@ -396,6 +414,9 @@ impl SubCompiler {
     }
     /// semantic-engine request (see sem::handle_sem)
     pub fn sem(&mut self, req: serde_json::Value, timeout_s: u64) -> Result<serde_json::Value, CompileFail> {
+        if self.inproc {
+            return on_big_stack(move || sem_request(&req));
+        }
         self.ensure()?;
         let r = self.worker.as_mut().unwrap().request(req, std::time::Duration::from_secs(timeout_s));
         match r {
